@@ -138,7 +138,7 @@ class Engine:
     name = "pc"
     spec = "pc"
     property_id = "C19"
-    runs = {"quick": 12000, "thorough": 3000000}
+    runs = {"quick": 8000, "thorough": 3000000}
     wall = {"quick": 300, "thorough": 600}
     selftest_n = {"quick": 24, "thorough": 96}
     chunk = 50
